@@ -50,6 +50,10 @@ def real_pool_cases(tier, seed):
             cases.append({'n': 0, 'raising': [], 'workers': 2, 'branch': branch, 'delays': {}})
         for n in (2, 4):
             cases.append({'n': n, 'raising': [2], 'workers': 2, 'branch': 'seq', 'delays': {}})
+        # the function raises an ordinary user exception whose constructor takes two arguments (it pickles, but does not unpickle)
+        for branch in ('process', 'thread', 'seq'):
+            cases.append({'n': 5, 'raising': [3], 'workers': 2, 'branch': branch, 'delays': {}, 'exc_kind': 'twoarg'})
+            cases.append({'n': 4, 'raising': [1, 4], 'workers': 3, 'branch': branch, 'delays': {'2': 3}, 'exc_kind': 'twoarg'})
     return cases
 
 
